@@ -237,6 +237,9 @@ def run_twin(tdgl, args, tmp):
             "A_total[T*m] via units=": np.asarray(sol.vector_potential_at_position(pos, units="T * m", with_units=False)).reshape(-1).tolist(),
         }
     res = {"u": u, "frames": frames, "K_A_per_m": phys, "fields": fields, "nsites": len(dev.mesh.sites)}
+    if args.get("post"):
+        sol.solve_step = len(frames) - 1
+        res["post"], res["post_outcomes"] = post_processing(sol, u, np, args.get("variant", 0))
     if args.get("reload"):
         # the solution written by the solver, read back: same physical outputs; and it must be usable as a seed
         last = str(frames[-1]["step"])
@@ -345,3 +348,72 @@ def history_twin(tdgl, args, tmp):
     re1 = tdgl.Solution.from_hdf5(saved)
     runs["first solution, saved after the edit and reloaded"], labels["first solution, saved after the edit and reloaded"] = _phys_outputs(re1, u1, np)
     return {"runs": runs, "first_labels": labels, "second_labels": lab2, "expected_first": [u1[1], u1[2]], "expected_second": [u2[1], u2[2]]}
+
+
+# ------------------------------------------------------------------------------------ post-processing accessors, one Solution, many calls
+
+J_UNITS = {"A/m": 1.0, "uA/um": 1.0, "mA/um": 1e3, "nA/um": 1e-3, "A/um": 1e6, "mA/mm": 1.0, "uA/nm": 1e3}
+I_UNITS = {"A": 1.0, "uA": 1e-6, "mA": 1e-3, "nA": 1e-9}
+FLUX_UNITS = {"Phi_0": None, "mT * um**2": 1e-3 * 1e-12, "uT * um**2": 1e-6 * 1e-12, "T * m**2": 1.0}
+
+
+def post_processing(sol, u, np, variant):
+    """The accessors with explicit units, called REPEATEDLY on one Solution with different units / with_units, in an order that
+    depends on `variant`; every result is brought to SI by the harness (the factor of the units that were asked for), so all calls
+    of one quantity must give the same numbers — on this Solution and in every unit system.
+    -> (observations [{key, call, v}], outcomes [{key, call, raised}])"""
+    from tdgl.em import ureg
+    LU, CU = 10.0 ** u[0], 10.0 ** u[2]
+    s_len = 1e-6 / LU
+    inside = np.array([[0.5, 0.3], [-1.0, 0.5], [1.5, -0.7], [-1.9, -1.0]]) * s_len
+    path = np.stack([np.zeros(15) + 0.4 * s_len, np.linspace(-1.4, 1.4, 15) * s_len], axis=1)      # across the bar, x = 0.4 um
+    poly = np.array([[-1.0, -0.8], [1.0, -0.8], [1.0, 0.8], [-1.0, 0.8], [-1.0, -0.8]]) * s_len
+    phi0 = ureg("Phi_0").to_base_units().magnitude
+    obs, outcomes = [], []
+    mag = lambda q: np.asarray(q.magnitude if hasattr(q, "magnitude") else q, dtype=float)
+
+    def rot(xs, k):
+        xs = list(xs)
+        k %= len(xs)
+        return xs[k:] + xs[:k]
+
+    def attempt(key, call, fn):
+        try:
+            v = np.nan_to_num(np.asarray(fn(), dtype=float)).reshape(-1).tolist()
+            obs.append({"key": key, "call": call, "v": v})
+            outcomes.append({"key": key, "call": call, "raised": 0})
+        except Exception as e:
+            outcomes.append({"key": key, "call": call, "raised": 1, "error": f"{type(e).__name__}: {e}"[:160]})
+
+    n = 0
+    junits = rot([None] + list(J_UNITS), variant) + [None, "A/m"]
+    for dataset in (None, "supercurrent", "normal_current"):
+        for method in ("linear", "cubic"):
+            for un in rot(junits, n):
+                n += 1
+                w = bool(n % 2)
+                f = (CU / LU) if un is None else J_UNITS[un]
+                attempt(f"post/interp_current_density({dataset}, {method})[A/m]", f"call {n}: units={un} with_units={w}",
+                        lambda: mag(sol.interp_current_density(inside, dataset=dataset, method=method, units=un, with_units=w)) * f)
+    for method in ("linear", "cubic"):
+        for rep_ in range(2):
+            attempt(f"post/|interp_order_parameter|({method})", f"call {rep_ + 1}", lambda: np.abs(sol.interp_order_parameter(inside, method=method)))
+    for un in rot(junits, variant + 3)[:5]:
+        n += 1
+        w = bool(n % 2)
+        f = (CU / LU) if un is None else J_UNITS[un]
+        attempt("post/grid_current_density(7x5, linear)[A/m]", f"call {n}: units={un} with_units={w}",
+                lambda: mag(sol.grid_current_density(grid_shape=(7, 5), method="linear", units=un, with_units=w)[2]) * f)
+    for un in rot([None] + list(I_UNITS), variant + 1) + [None]:
+        n += 1
+        w = bool(n % 2)
+        f = CU if un is None else I_UNITS[un]
+        attempt("post/current_through_path[A]", f"call {n}: units={un} with_units={w}",
+                lambda: mag(sol.current_through_path(path, units=un, with_units=w)) * f)
+    for un in rot(list(FLUX_UNITS), variant):
+        n += 1
+        w = bool(n % 2)
+        f = phi0 if FLUX_UNITS[un] is None else FLUX_UNITS[un]
+        attempt("post/polygon_fluxoid (flux, supercurrent part)[Wb]", f"call {n}: units={un} with_units={w}",
+                lambda: np.array([mag(x) for x in sol.polygon_fluxoid(poly, units=un, with_units=w)]) * f)
+    return obs, outcomes
